@@ -59,7 +59,8 @@ class OpsMixin:
         key = v.sexpr()
         if key in self.tagcache:
             return self.tagcache[key]
-        feas = [t for t in TAGS if self.feasible(is_tag(v, t))]
+        cands = self.tagsets.get(key, TAGS)
+        feas = [t for t in cands if self.feasible(is_tag(v, t))]
         if not feas:
             raise PathEnd()
         if len(feas) == 1:
@@ -177,6 +178,9 @@ class OpsMixin:
             if name in self.eng.consts:
                 py = self.eng.consts[name]
                 return lift(py) if liftable(py) else Const(py, name)
+            gk = [k for k in self.eng.globals_decl if k.endswith('::' + name)]
+            if len(gk) == 1 and self.spec_mode:
+                return self.read_global(gk[0])
         rel = fr.rel
         if fr.contract is not None and fr.contract.target:
             rel = fr.contract.target.split('::')[0]
@@ -320,6 +324,15 @@ class OpsMixin:
             ta = static_tag(a.arg(1)) or static_tag(a.arg(2))
         if z3.is_app(b) and b.decl().kind() == z3.Z3_OP_ITE and tb is None:
             tb = static_tag(b.arg(1)) or static_tag(b.arg(2))
+        if self.spec_mode and (ta is None or tb is None) and isinstance(op, (ast.Add, ast.Sub)) \
+                and ta in (None, 'VInt', 'VNum') and tb in (None, 'VInt', 'VNum'):
+            # generic numeric +/- on values whose int/float tag is not known statically
+            both_int = z3.And(Value.is_VInt(a), Value.is_VInt(b))
+            ia, ib = Value.i(a), Value.i(b)
+            ra, rb = self._toreal(a), self._toreal(b)
+            if isinstance(op, ast.Add):
+                return z3.If(both_int, VInt(ia + ib), VNum(ra + rb))
+            return z3.If(both_int, VInt(ia - ib), VNum(ra - rb))
         if ta is None and tb is None and self.spec_mode:
             ta = tb = 'VInt'
         elif ta is None:
@@ -422,7 +435,8 @@ class OpsMixin:
             a = VBool(a)
         if z3.is_bool(b):
             b = VBool(b)
-        ta, tb = static_tag(a), static_tag(b)
+        ta = static_tag(a) or self.tagcache.get(a.sexpr())
+        tb = static_tag(b) or self.tagcache.get(b.sexpr())
         numt = ('VInt', 'VNum', 'VBool')
         if ta and tb:
             if ta == tb:
